@@ -5,6 +5,7 @@ import glob
 import json
 import os
 
+import c17_escapes
 import c17_names
 import html_gen
 import html_util as hu
@@ -53,7 +54,19 @@ def run_html(ctx):
         'documents whose names are drawn from the whole alphabet; non-name neighbours of the ranges (U+00D7, U+00F7, '
         'U+00B6..U+00BF, U+037E, U+2000, U+200B, U+200E, U+203E, U+2041, U+206F, U+2190, U+2BFF, U+2FF0, U+3000, U+E000, '
         'U+F8FF, U+FDD0, U+FDEF, U+FFFE, U+FFFF, U+F0000, U+10FFFF, `@[/;` and backtick) only inside quoted values, class tokens and text; every position, same '
-        'three helpers, same ground-truth oracle, same model correspondence.')
+        'three helpers, same ground-truth oracle, same model correspondence.'
+        ' ESCAPES AND QUOTING LAYERS IN ATTRIBUTE VALUES (harness/c17_escapes.py): value bodies built from units -- backslash '
+        'runs of length 2 and 4, backslash + other quote / letter / space / newline / `>` / `/` / `=` / brace / `u0041`, odd run + '
+        'letter, backslash + OWN quote (runs 1 and 3; Emmet reads a quoted string with the backslash as escape character, '
+        'scanner_utils.eat_quoted), character references and percent escapes of both quotes and of the backslash (&quot; &#34; '
+        '&#x22; &apos; &#39; &#92; &bsol; &amp;quot; %22 %27 %5C), the bare other quote, `&`, `;`, unfinished references -- each unit in EVERY '
+        'PLACE of the value (only / first / middle / last / last twice / first and last, i.e. directly after the opening and directly before the '
+        'closing delimiter) x every value form it can be written in (double-quoted, single-quoted, {expression}, unquoted) x '
+        '(ordinary attribute, class attribute whose first / middle / last token carries the unit; quick tier: both for the places only / last / '
+        'last twice, one of the two at random for the other places, units without a backslash only in the places only / first / last), plus random documents with '
+        'bodies of random units; the record is taken while writing (unquoted value = value without its two quote characters / '
+        'its one outer brace pair; class tokens = maximal non-space runs); every position, same three helpers, same oracle, same '
+        'model correspondence.')
     docs = []
     for path in sorted(glob.glob(os.path.join(VERIF, 'corpus', 'C17', 'html*.json'))):
         with open(path) as f:
@@ -71,6 +84,10 @@ def run_html(ctx):
                     if ord(ch) >= 0x80 or not ch.isalpha():
                         ctx.cover('html:name-char:%s:%s:%s' % (kind, c17_names.name_class(ord(ch)), where))
     docs += name_docs
+    for label, d, buckets in c17_escapes.escape_documents(rng, 20 if quick else 1500, full=not quick):
+        for bk in buckets:
+            ctx.cover(bk)
+        docs.append((label, d))
     jobs = []
     pos_of = []
     for _, d in docs:
